@@ -5,7 +5,7 @@ from tools.props.match_units import MatchUnit
 
 class P(Property):
     id = "C03"
-    gen_targets = ["MatchGlue", "UtilsGlue"]
+    gen_targets = ["MatchGlue"]
 
     def units(self, tier):
         return [MatchUnit(("C03",))]
